@@ -197,8 +197,8 @@ PROPS = {
                    "every answer must equal the beacon node's own answer, invalidated or trimmed epochs must be fetched afresh, returned results are private copies.",
         level_note="Model sequences are single-threaded; concurrent callers are exercised by TestC20Threads on real goroutines (race detector in the thorough tier); duplicate indices inside one request and table changes without invalidation are outside the domain; metadata maps are not compared.",
         runs={
-            "quick": [dict(test="TestC20Model", checks=8000, shards=4), dict(test="TestC20Threads", checks=1000, shrinktime="15s")],
-            "thorough": [dict(test="TestC20Model", checks=200000, shards=12, timeout=3000), dict(test="TestC20Threads", checks=20000, shards=3, race=True, timeout=3000)],
+            "quick": [dict(test="TestC20Model", checks=8000, shards=4), dict(test="TestC20Regression", mode="plain"), dict(test="TestC20Threads", checks=1000, shrinktime="15s")],
+            "thorough": [dict(test="TestC20Model", checks=200000, shards=12, timeout=3000), dict(test="TestC20Regression", mode="plain"), dict(test="TestC20Threads", checks=20000, shards=3, race=True, timeout=3000)],
         },
     ),
     "C15": dict(
